@@ -1268,6 +1268,10 @@ def leaf_alphabet(thorough: bool):
     L["MD2"], L["MD32"], L["MD23"] = MD((2,)), MD((3, 2)), MD((2, 3))
     # shapes whose sum and product differ ((2, 2) cannot tell a summed flat_size from a multiplied one)
     L["MB23"], L["bm_23"] = MB((2, 3)), B(-1.0, 2.0, shape=(2, 3))
+    # boxes that differ from bs_zero = Box(0, 1) (and from each other) by less than any sensible tolerance: equality is exact
+    L["bs_near_hi"] = B(0.0, float(np.nextafter(np.float32(1.0), np.float32(2.0))))
+    L["bs_near_lo"] = B(-1e-9, 1.0)
+    L["bs_1000"], L["bs_1000b"] = B(0.0, 1000.0), B(0.0, 1000.005)
     if thorough:
         L["D4"] = D(4)
         L["bw_fin"] = B([-1.0, 0.0, 1.0], [0.0, 0.0, 4.0])
